@@ -157,6 +157,17 @@ def scan_forbidden():
     return hits
 
 
+def build_witnesses(modules):
+    """Witness modules state that the CURRENT tree violates part of a property (known findings).
+    They are informational: failing to check means the defect no longer reproduces in the model."""
+    out = {}
+    for m in modules:
+        with Lock(".lake.lock"):
+            rc, log_ = lake_build([m])
+        out[m] = "checks" if rc == 0 else "no longer checks (defect repaired or model changed): " + "; ".join(lean_errors(log_))[:300]
+    return out
+
+
 def prove(prop, modules):
     """Build the property's theorem modules and audit them.  Returns a dict for the evidence.
     Raises Broken(name of what no longer checks, Lean message)."""
